@@ -1,1 +1,6 @@
 import LA.Model.Reasm
+import LA.Props.C01
+import LA.Props.C02
+import LA.Props.C03
+import LA.Props.C10
+import LA.Props.C19
